@@ -86,6 +86,15 @@ class LOptSeq(LBase):
 
 
 @dataclass
+class LNcKid(LBase):
+    """A child field that takes no part in == (trivia): a node can then be == to its own descendant."""
+
+    v: int = 0
+    kid: LBase | None = field(default=None, compare=False)
+    more: tuple[LBase, ...] = field(default=(), compare=False)
+
+
+@dataclass
 class LFalsy(LLeaf):
     """A leaf that is falsy in a boolean context (e.g. an empty container node)."""
 
@@ -93,7 +102,7 @@ class LFalsy(LLeaf):
         return False
 
 
-LCLASSES: dict[str, type] = {c.__name__: c for c in (LBase, LLeaf, LSub, LTup, LList, LOpt, LReq, LMix, LNarrow, LFalsy, LAbs, LTwoSeq, LOptSeq)}
+LCLASSES: dict[str, type] = {c.__name__: c for c in (LBase, LLeaf, LSub, LTup, LList, LOpt, LReq, LMix, LNarrow, LFalsy, LAbs, LTwoSeq, LOptSeq, LNcKid)}
 
 
 def _is_recipe(val: Any) -> bool:
